@@ -418,12 +418,12 @@ func (n *dkgNode) rec(call, out string, real any) {
 	n.real = append(n.real, real)
 }
 
-func (n *dkgNode) line() string { return n.lineFix(true) }
+func (n *dkgNode) line() string { return n.lineFix(true, true) }
 
-// lineFix renders the model line for the repaired (fixes/C11-leaving-dealer-responses.patch) or the
-// as-coded phase check of ProcessResponses.
-func (n *dkgNode) lineFix(fixed bool) string {
-	return "dkg " + n.cfgTok + ";" + b01(fixed) + " " + strings.Join(n.calls, " ")
+// lineFix renders the model line for the repaired / as-coded variants of the two places patched by
+// fixes/C11-leaving-dealer-responses.patch and fixes/C11-agreement-phase-decision.patch.
+func (n *dkgNode) lineFix(fixLeaving, fixPhase bool) string {
+	return "dkg " + n.cfgTok + ";" + b01(fixLeaving) + ";" + b01(fixPhase) + " " + strings.Join(n.calls, " ")
 }
 
 // resultTok renders a real Result with commitments as logarithms when known, else checks happen on points.
